@@ -154,39 +154,6 @@ theorem tie_wire_session_helpers :
 
 /-! ### round 4: semantic ties of the decision-making conditions on the path -/
 
-theorem any_or_fun {α} (l : List α) (p q : α → Bool) :
-    l.any (fun x => p x || q x) = (l.any p || l.any q) := by
-  induction l with
-  | nil => rfl
-  | cons x l ih =>
-    simp only [List.any_cons, ih]
-    cases p x <;> cases q x <;> cases l.any p <;> cases l.any q <;> rfl
-
-theorem any_and_const {α} (l : List α) (a : Bool) (p : α → Bool) :
-    l.any (fun x => a && p x) = (a && l.any p) := by
-  cases a <;> simp
-
-/-- the model's `acceptable`, spelled with the probes the code makes (`errors.Is` per sentinel, `errors.As`,
-the installed user functions) -/
-theorem acceptable_probes (ua : UA) (e : Option Err) :
-    acceptable ua e = (e.isNone || hasCls e .noRows || hasCls e .txDone || hasCls e .canceled ||
-      hasCls e .accType || (ua.a1 && hasCls e .userOk) || (ua.a2 && hasCls e .userOk2)) := by
-  cases e with
-  | none => rfl
-  | some e =>
-    have hf : srcAcceptable ua = fun s =>
-        (srcCls s == some .noRows) || (srcCls s == some .txDone) || (srcCls s == some .canceled) ||
-        (srcCls s == some .accType) || (ua.a1 && srcCls s == some .userOk) ||
-        (ua.a2 && srcCls s == some .userOk2) := by
-      funext s
-      obtain ⟨a1, a2⟩ := ua
-      cases s with
-      | body c => cases c <;> cases a1 <;> cases a2 <;> rfl
-      | commit c => cases c <;> cases a1 <;> cases a2 <;> rfl
-      | rollback c => cases c <;> cases a1 <;> cases a2 <;> rfl
-      | _ => cases a1 <;> cases a2 <;> rfl
-    simp only [acceptable, hasCls, hf, any_or_fun, any_and_const, Option.isNone, Bool.false_or]
-
 /-- **Semantic tie of `commonSqlConn.acceptable`.**  Its decision chain, translated from the source *now*
 (`err == nil || errorx.In(err, sql.ErrNoRows, sql.ErrTxDone, context.Canceled)` → true; `errors.As(err, &e)` with
 `var e acceptableError` → true; `db.accept == nil` → false; else `db.accept(err)`), evaluated with short-circuit
@@ -243,6 +210,49 @@ theorem tie_transact_sem (connOk : Bool) (f : Faults) (b : Body) :
       simp [transactBlk, runOuter, evalCond]
     rw [hr]
     simpa [outcome, transactFn] using h
+
+/-! ### round 5: forwarded arguments, composed along the path, for ALL arguments -/
+
+/-- what `transactOnConn(ctx, conn, b, fn)` hands to the begin function and to the body -/
+def onConnHands (actuals : List V) : List V × List V := (evalFwd fwdOnConnBegin actuals, evalFwd fwdOnConnBody actuals)
+
+/-- `commonSqlConn.TransactCtx(c, f)` followed down to the two calls `b(conn)` and `fn(ctx, tx)` -/
+def pathFromTransactCtx (actuals : List V) : List V × List V :=
+  onConnHands (evalFwd fwdTransactFn (evalFwd fwdTransactCtxThunk actuals))
+
+/-- **Semantic tie of the forwarding, end to end, for every context `c` and body `f` of the caller.**
+Composing the typed argument lists read from the source now: through every entry point the body that runs is the
+caller's body `f` (through `Transact`: adapted by dropping the context), it is handed the transaction `tx` and
+the CALLER's context `c` (through `Transact`: `context.Background()`, which never ends), the begin function is
+the connection's `beginTx` applied to the provider's `conn`, the breaker gets that same context, the thunk around
+`transact`, and `db.acceptable`; the cached entry points pass (c, f) on unchanged.  A dropped, swapped or replaced
+argument at any hop breaks this theorem (and shows in the harness as `cv=0` / a statement that ignores a
+cancellation). -/
+theorem tie_forwarding_sem (c f : Nat) :
+    -- callees of every hop
+    [fwdCachedTransact.callee, fwdCachedTransactCtx.callee, fwdTransact.callee, fwdTransactCtx.callee,
+      fwdTransactCtxThunk.callee, fwdTransactFn.callee, fwdOnConnBegin.callee, fwdOnConnBody.callee] =
+      ["cc.TransactCtx", "cc.db.TransactCtx", "db.TransactCtx", "db.brk.DoWithAcceptableCtx", "transact",
+       "transactOnConn", "b", "fn"] ∧
+    -- TransactCtx(c, f): breaker arguments, and what reaches begin / the body
+    evalFwd fwdTransactCtx [V.ctx c, V.body f false] = [V.ctx c, V.thunk, V.acceptFn] ∧
+    evalFwd fwdTransactCtxThunk [V.ctx c, V.body f false] = [V.ctx c, V.db, V.beginFn, V.body f false] ∧
+    pathFromTransactCtx [V.ctx c, V.body f false] = ([V.conn], [V.ctx c, V.tx]) ∧
+    (evalFwd fwdTransactFn (evalFwd fwdTransactCtxThunk [V.ctx c, V.body f false])).getD 3 V.unknown = V.body f false ∧
+    (evalFwd fwdTransactFn (evalFwd fwdTransactCtxThunk [V.ctx c, V.body f false])).getD 2 V.unknown = V.beginFn ∧
+    -- Transact(f) = TransactCtx(Background, adapted f)
+    evalFwd fwdTransact [V.body f false] = [V.bgCtx, V.body f true] ∧
+    pathFromTransactCtx (evalFwd fwdTransact [V.body f false]) = ([V.conn], [V.bgCtx, V.tx]) ∧
+    -- the cached entry points
+    evalFwd fwdCachedTransactCtx [V.ctx c, V.body f false] = [V.ctx c, V.body f false] ∧
+    evalFwd fwdCachedTransact [V.body f false] = [V.bgCtx, V.body f true] ∧
+    -- parameter orders the positions above refer to
+    fwdTransactCtxParams = ["ctx", "fn"] ∧ fwdTransactFnParams = ["ctx", "db", "b", "fn"] ∧
+    fwdOnConnBodyParams = ["ctx", "conn", "b", "fn"] ∧ fwdCachedTransactCtxParams = ["ctx", "fn"] ∧
+    fwdTransactParams = ["fn"] ∧ fwdCachedTransactParams = ["fn"] := by
+  refine ⟨by decide, ?_, ?_, ?_, ?_, ?_, ?_, ?_, ?_, ?_, by decide, by decide, by decide, by decide, by decide, by decide⟩ <;>
+    simp [pathFromTransactCtx, onConnHands, evalFwd, evalArg, fwdTransactCtx, fwdTransactCtxThunk, fwdTransactFn,
+      fwdOnConnBegin, fwdOnConnBody, fwdTransact, fwdCachedTransactCtx, fwdCachedTransact, List.getD]
 
 /-- `begin`: `db.Begin()`; its error is returned with a nil transaction; else the session around the new Tx -/
 theorem tie_beginBlk : beginBlk =
